@@ -1,7 +1,9 @@
-/- driver for C15 (penalty methods), Float instantiation of Model/Penalty -/
+/- driver for C15 (penalty methods), Float instantiation of Model/Penalty + Model/PenaltyTree.
+Nothing but the user's callables (DSL leaves) is evaluated outside the model. -/
 import MysticVerif.Basic.Proto
 import MysticVerif.Model.Dsl
 import MysticVerif.Model.Penalty
+import MysticVerif.Model.PenaltyTree
 
 namespace MysticVerif.DrvC15
 open MysticVerif MysticVerif.Pen MysticVerif.Dsl
@@ -16,66 +18,11 @@ instance : PenOps Float where
   log := Float.log
   inf := 1.0 / 0.0
 
-/-! conditions: DSL expressions, `as_penalty`'s rnorm of a DSL constraint, and the `coupler` combinators
-over member penalty stacks (plumbing only; the theorems take condition values as parameters) -/
-mutual
-inductive CondT where
-  | e (ex : Expr)
-  | rnorm (c : Con)
-  | and (ms : List StackT)
-  | or (ms : List StackT)
-  | not (t : PType) (c : CondT)
-inductive StackT where
-  | mk (levels : List (Level Float × CondT)) (f : Expr)
-end
-
-instance : Inhabited CondT := ⟨.e (.c 0.0)⟩
-instance : Inhabited StackT := ⟨.mk [] (.c 0.0)⟩
-
-mutual
-partial def evalCond (c : CondT) (x : List Float) : Option Float :=
-  match c with
-  | .e ex => ex.eval x
-  | .rnorm con => (con.apply x).map (fun cx => rnorm x cx)
-  | .and ms =>
-    match ms.mapM (fun s => (evalStackT s x).toOption) with
-    | none => none                      -- a member raised ZeroDivisionError inside the condition
-    | some vals => some (andCond vals)
-  | .or ms =>
-    match ms.mapM (fun s => (evalStackT s x).toOption) with
-    | none => none
-    | some [] => none                   -- never generated (python: ValueError)
-    | some (v :: vals) => some (orCond v vals)
-  | .not t c => (evalCond c x).map (notCond t)
-partial def evalStackT (s : StackT) (x : List Float) : Except Err Float :=
-  match s with
-  | .mk levels f => evalStack (levels.map fun lc => (lc.1, evalCond lc.2 x)) ((f.eval x).getD 0.0)
-end
-
 def parsePType : Val → Option PType
   | .sym "qEq" => some .qEq | .sym "lEq" => some .lEq | .sym "uEq" => some .uEq
   | .sym "uIneq" => some .uIneq | .sym "barrier" => some .barrier | .sym "qIneq" => some .qIneq
   | .sym "lIneq" => some .lIneq | .sym "lagIneq" => some .lagIneq | .sym "lagEq" => some .lagEq
   | _ => none
-
-mutual
-partial def parseCond : Val → Option CondT
-  | .list [.sym "e", ex] => do pure (.e (← parseExpr ex))
-  | .list [.sym "rnorm", c] => do pure (.rnorm (← parseCon c))
-  | .list (.sym "and" :: ms) => do pure (.and (← ms.mapM parseStack))
-  | .list (.sym "or" :: ms) => do pure (.or (← ms.mapM parseStack))
-  | .list [.sym "not", t, c] => do pure (.not (← parsePType t) (← parseCond c))
-  | _ => none
-/-- level: `(T k h n (y...) cond)` -/
-partial def parseLevel : Val → Option (Level Float × CondT)
-  | .list [t, k, h, .int n, ys, c] => do
-    pure ({ t := ← parsePType t, k := ← k.asFloat?, h := ← h.asFloat?, n := n, y := ← ys.asFloats? }, ← parseCond c)
-  | _ => none
-/-- stack: `(stack (level*) fexpr)` -/
-partial def parseStack : Val → Option StackT
-  | .list [.sym "stack", .list ls, f] => do pure (.mk (← ls.mapM parseLevel) (← parseExpr f))
-  | _ => none
-end
 
 def pErr : Err → String
   | .zerodiv => "(raise zerodiv)"
@@ -88,66 +35,104 @@ def pVal : Except Err Float → String
   | .ok v => s!"(v {pF v})"
   | .error e => pErr e
 
-structure St where
-  ls : List (Level Float)
+/-! ### penalty trees (Model/PenaltyTree): the user's callables are the only thing evaluated here -/
+
+inductive LeafT where
+  | e (ex : Expr)
+  | rnorm (c : Con)
+
+def parseLeaf : Val → Option LeafT
+  | .list [.sym "e", ex] => do pure (.e (← parseExpr ex))
+  | .list [.sym "rnorm", c] => do pure (.rnorm (← parseCon c))
+  | _ => none
+
+/-- the values of the user's callables at `x` -/
+def envAt (leaves : Array LeafT) (fns : Array Expr) (x : List Float) : Env Float where
+  c i := match leaves[i]? with
+    | some (.e ex) => ex.eval x
+    | some (.rnorm con) => asPenaltyCond x (con.apply x)
+    | none => none
+  f j := match fns[j]? with
+    | some g => (g.eval x).getD 0.0
+    | none => 0.0
+
+mutual
+partial def parsePT : Val → Option (PT Float)
+  | .list [.sym "base", .int j] => some (.base j.toNat)
+  | .list [.sym "pen", .list [t, k, h, .int n, ys], c, inner] => do
+    pure (.pen { t := ← parsePType t, k := ← k.asFloat?, h := ← h.asFloat?, n := n, y := ← ys.asFloats? }
+      (← parsePC c) (← parsePT inner))
+  | _ => none
+partial def parsePC : Val → Option (PC Float)
+  | .list [.sym "leaf", .int i] => some (.leaf i.toNat)
+  | .list [.sym "not", t, c] => do pure (.not (← parsePType t) (← parsePC c))
+  | .list (.sym "and" :: ms) => do pure (.and (← parsePL ms))
+  | .list (.sym "or" :: m :: ms) => do pure (.or (← parsePT m) (← parsePL ms))
+  | _ => none
+partial def parsePL : List Val → Option (PL Float)
+  | [] => some .nil
+  | m :: ms => do pure (.cons (← parsePT m) (← parsePL ms))
+end
+
+def parsePath : Val → Option (List Step)
+  | .list l => l.mapM fun
+    | .sym "d" => some Step.down
+    | .list [.sym "m", .int k] => some (Step.member k.toNat)
+    | _ => none
+  | _ => none
+
+structure StT where
+  t : PT Float
   out : Array String := #[]
 
-/-- one operation on the live stack; `conds` are the (immutable) conditions of the levels -/
-def step (conds : List CondT) (f : Expr) (s : St) (op : Val) : Option St := do
-  let pairs (j : Nat) (x : List Float) : List (Level Float × Option Float) :=
-    ((s.ls.zip conds).drop j).map fun lc => (lc.1, evalCond lc.2 x)
+def stepT (leaves : Array LeafT) (fns : Array Expr) (s : StT) (op : Val) : Option StT := do
+  let env := envAt leaves fns
+  let mut' (o : TOp Float) : StT :=
+    let t' := o.apply s.t
+    let st := pState (allLevels t')
+    { t := t', out := s.out.push (match o.err s.t with | some e => pErr e ++ " " ++ st | none => st) }
   match op with
-  | .list [.sym "call", .int j, xv] =>
+  | .list [.sym "call", pv, xv] =>
     let x ← xv.asFloats?
-    pure { s with out := s.out.push (pVal (evalStack (pairs j.toNat x) ((f.eval x).getD 0.0))) }
-  | .list [.sym "additive", .int j, xv, gv] =>
+    let sub ← getT (← parsePath pv) s.t
+    pure { s with out := s.out.push (pVal (evalT (env x) sub)) }
+  | .list [.sym "additive", pv, xv, gv] =>
     let x ← xv.asFloats?
     let g ← parseExpr gv
-    let r := match evalStack (pairs j.toNat x) ((f.eval x).getD 0.0) with
+    let sub ← getT (← parsePath pv) s.t
+    let r := match evalT (env x) sub with
       | .ok px => Except.ok (additive px ((g.eval x).getD 0.0))
       | .error e => .error e
     pure { s with out := s.out.push (pVal r) }
-  | .list [.sym "error", .int j, xv] =>
+  | .list [.sym "error", pv, xv] =>
     let x ← xv.asFloats?
-    pure { s with out := s.out.push (pVal (.ok (errStack (pairs j.toNat x)))) }
-  | .list [.sym "iter", .int j] =>
-    let ls := onFrom j.toNat (iterStack none) s.ls
-    pure { ls := ls, out := s.out.push (pState ls) }
-  | .list [.sym "iterI", .int j, .int i] =>
-    let ls := onFrom j.toNat (iterStack (some i)) s.ls
-    pure { ls := ls, out := s.out.push (pState ls) }
-  | .list [.sym "clear", .int j] =>
-    let ls := onFrom j.toNat clearStack s.ls
-    pure { ls := ls, out := s.out.push (pState ls) }
-  | .list [.sym "store", .int j, xv] =>
-    let x ← xv.asFloats?
-    let r := storeStack none (pairs j.toNat x)
-    let ls := s.ls.take j.toNat ++ r.1
-    pure { ls := ls, out := s.out.push (match r.2 with | some e => pErr e ++ " " ++ pState ls | none => pState ls) }
-  | .list [.sym "storeI", .int j, xv, .int i] =>
-    let x ← xv.asFloats?
-    let r := storeStack (some i) (pairs j.toNat x)
-    let ls := s.ls.take j.toNat ++ r.1
-    pure { ls := ls, out := s.out.push (match r.2 with | some e => pErr e ++ " " ++ pState ls | none => pState ls) }
-  | .list [.sym "stored", .int j] =>
-    let l ← s.ls[j.toNat]?
-    pure { s with out := s.out.push s!"(ys {pFs l.y})" }
-  | .list [.sym "storedI", .int j, .int i] =>
-    let l ← s.ls[j.toNat]?
-    pure { s with out := s.out.push s!"(v {pF (storedAt l.y i)})" }
-  | .list [.sym "iteration", .int j] =>
-    pure { s with out := s.out.push s!"(n {iteration (s.ls.drop j.toNat)})" }
+    let sub ← getT (← parsePath pv) s.t
+    pure { s with out := s.out.push (pVal (.ok (errT (env x) sub))) }
+  | .list [.sym "iter", pv] => pure (mut' (.iter (← parsePath pv) none))
+  | .list [.sym "iterI", pv, .int i] => pure (mut' (.iter (← parsePath pv) (some i)))
+  | .list [.sym "clear", pv] => pure (mut' (.clear (← parsePath pv)))
+  | .list [.sym "store", pv, xv] => pure (mut' (.store (← parsePath pv) (env (← xv.asFloats?)) none))
+  | .list [.sym "storeI", pv, xv, .int i] => pure (mut' (.store (← parsePath pv) (env (← xv.asFloats?)) (some i)))
+  | .list [.sym "stored", pv] =>
+    let sub ← getT (← parsePath pv) s.t
+    pure { s with out := s.out.push s!"(ys {pFs (storedT sub)})" }
+  | .list [.sym "storedI", pv, .int i] =>
+    let sub ← getT (← parsePath pv) s.t
+    pure { s with out := s.out.push s!"(v {pF (storedAt (storedT sub) i)})" }
+  | .list [.sym "iteration", pv] =>
+    let sub ← getT (← parsePath pv) s.t
+    pure { s with out := s.out.push s!"(n {iterationT sub})" }
   | _ => none
 
 def handle : Handler
-  | .sym "run" :: args => Id.run do
-    let some lv := (kw? args "levels").bind Val.asList? |>.bind (·.mapM parseLevel) | return "bad-op"
-    let some f := (kw? args "f").bind parseExpr | return "bad-op"
+  | .sym "tree" :: args => Id.run do
+    let some leaves := (kw? args "leaves").bind Val.asList? |>.bind (·.mapM parseLeaf) | return "bad-op"
+    let some fns := (kw? args "fns").bind Val.asList? |>.bind (·.mapM parseExpr) | return "bad-op"
+    let some t := (kw? args "t").bind parsePT | return "bad-op"
     let some ops := (kw? args "ops").bind Val.asList? | return "bad-op"
-    let conds := lv.map (·.2)
-    let mut s : St := { ls := lv.map (·.1) }
+    let mut s : StT := { t := t }
     for op in ops do
-      match step conds f s op with
+      match stepT leaves.toArray fns.toArray s op with
       | some s' => s := s'
       | none => return "bad-op"
     return "ok r=(" ++ " ".intercalate s.out.toList ++ ")"
